@@ -294,9 +294,20 @@ class Exec:
             # static local: a global object; its initialiser is its (only) value if it is const
             g = ("glob", dv.get("q", dv["n"]) + "@" + self.fn.d["q"])
             if dv.get("const") and init is not None:
-                self.env[vid] = self.ev(init, out)
-            else:
-                self.env[vid] = ("cell", g, None)
+                scratch = []
+                val = self.ev(init, scratch)
+                # usable as "the" value only when it is the same in every call: no allocation, no parameter, no object state
+                # (a value-returning call on constant arguments is a constant as long as the callee is deterministic)
+                pure = val is not None and not any(st[0] in ("obj", "new", "sym", "var", "fld", "glob", "unk") for st in sym.subterms(val))
+                if pure:
+                    out.extend(scratch)
+                    self.env[vid] = val
+                    return
+                # initialised once, by whichever call came first: a global cell holding that first value
+                out.extend(scratch)
+                out.append({"e": "store", "lv": g, "op": "=", "val": val if val is not None else ("unk", "init"), "l": dv["l"], "t": t, "ct": "",
+                            "once": True})
+            self.env[vid] = ("cell", g, None)
             return
         if is_ref_type(t):
             self.env[vid] = ("alias", self.lv(init, out)) if init is not None else ("unk", "ref")
